@@ -695,6 +695,61 @@ func TestVerifC06(t *testing.T) {
 	}
 	c06Namespace(t, out)
 	c06RefusedRegistration(t, out)
+	c06CancelledRequest(t, out)
+}
+
+// c06CancelledRequest: the REQUEST's context is cancelled (client gone, request deadline) right after the lease record
+// was written — no storage fault: the storage backend honours the context, so the next write (the token index entry)
+// fails. "If recording the lease fails at any step, the freshly generated secret is revoked at its backend, no partial
+// lease or index records remain": the clean-up must not depend on the context that caused the failure.
+// Op line: cancelled <after-put-of> => <class>|newlease:<n>|newindex:<n>|live:<issued-revoked>
+func c06CancelledRequest(t *testing.T, out *vh.Out) {
+	e := c06NewEnv(t)
+	c := e.c
+	for _, at := range []string{"sys/expire/id/", "sys/expire/token/"} {
+		tok := e.requester(c06Variant{flow: "secret", req: "s", npol: 1})
+		c06Quiesce(e.p)
+		count := func(sub string) int {
+			n := 0
+			for _, k := range e.p.AllKeys() {
+				if strings.Contains(k, sub) {
+					n++
+				}
+			}
+			return n
+		}
+		l0, x0 := count("sys/expire/id/rec/"), count("sys/expire/token/")
+		i0, r0 := e.counts()
+		ctx, cancel := context.WithCancel(vhRootCtx())
+		sub := at
+		if at == "sys/expire/id/" {
+			sub = "sys/expire/id/rec/"
+		}
+		e.p.SetAfterPut(func(k string) {
+			if strings.Contains(k, sub) {
+				cancel()
+				time.Sleep(40 * time.Millisecond) // HandleRequest forwards the cancellation to its own context from a watcher goroutine
+			}
+		})
+		req := &logical.Request{Operation: logical.ReadOperation, Path: "rec/lease/a", ClientToken: tok}
+		req.SetTokenEntry(nil)
+		resp, err := c.HandleRequest(ctx, req)
+		e.p.SetAfterPut(nil)
+		cancel()
+		cl := vhClass(resp, err)
+		if cl != "ok" {
+			cl = "err"
+		}
+		c06Quiesce(e.p)
+		i1, r1 := e.counts()
+		nl, nx, live := count("sys/expire/id/rec/")-l0, count("sys/expire/token/")-x0, (i1-i0)-(r1-r0)
+		res := fmt.Sprintf("%s|newlease:%d|newindex:%d|live:%d", cl, nl, nx, live)
+		if cl != "ok" && (nl > 0 || nx > 0 || live > 0) {
+			res += "!VIOL:the request failed (its context was cancelled after the write of " + at + "…) and left behind " + fmt.Sprintf("%d lease record(s), %d token index entr(ies), %d live secret(s)", nl, nx, live) + "#C06:partial-records-after-cancelled-request"
+		}
+		out.Op(res, "cancelled", at)
+	}
+	_ = c.Shutdown()
 }
 
 // c06RefusedRegistration: a token creation whose LEASE REGISTRATION is refused for a reason other than a storage
